@@ -209,3 +209,15 @@ fn identify_edges(faces: &[[u32; 3]]) -> Result<(Vec<[u32; 2]>, Vec<[u32; 3]>, V
 
     Ok((edges, face_edges, loops))
 }
+
+#[cfg(feature = "verif")]
+pub fn verif_identify_edges(
+    faces: &[[u32; 3]],
+) -> Result<(Vec<[u32; 2]>, Vec<[u32; 3]>, Vec<Vec<u32>>)> {
+    identify_edges(faces)
+}
+
+#[cfg(feature = "verif")]
+pub fn verif_boundary_loops(boundary_map: HashMap<u32, u32>) -> Vec<Vec<u32>> {
+    boundary_loops(boundary_map)
+}
